@@ -625,6 +625,11 @@ func builtin_oct(self, v py.Object) (py.Object, error) {
 			str = "0o" + str
 		}
 		return py.String(str), nil
+	case py.Bool:
+		// bool is an int
+		if v {
+			i = 1
+		}
 	case py.IGoInt64:
 		i, err = v.GoInt64()
 	case py.IGoInt:
@@ -932,6 +937,11 @@ func builtin_hex(self, v py.Object) (py.Object, error) {
 			str = "0x" + str
 		}
 		return py.String(str), nil
+	case py.Bool:
+		// bool is an int
+		if v {
+			i = 1
+		}
 	case py.IGoInt64:
 		i, err = v.GoInt64()
 	case py.IGoInt:
